@@ -71,7 +71,7 @@ Start(disk, plan, exdev, owner, miss) ==
   [disk |-> disk, miss |-> miss, tree0 |-> disk, target |-> Nil, elog |-> <<>>, cache |-> CacheOf(disk), plan |-> plan, i |-> 1, pc |-> "start",
    w |-> NoWalk, lf |-> NoLeaf, stk |-> <<>>, ret |-> "none", held |-> Nil,
    results |-> <<>>, problems |-> {}, missing |-> FALSE, ops |-> 0,
-   budget |-> Budget, cancelled |-> FALSE, exdev |-> exdev, owner |-> owner, norn2 |-> FALSE,
+   budget |-> Budget, cancelled |-> FALSE, exdev |-> exdev, owner |-> owner, norn2 |-> FALSE, templeft |-> 0,
    edited |-> {}, before |-> disk, fkind |-> "none"]
 
 Init == \E disk \in DiskTrees, target \in TargetTrees :
@@ -165,7 +165,7 @@ ListLeaf ==         \* nameExistsInDirectoryWithProperCase(leafName, parent)
 \*   op  "rmfile" | "rmlink" | "swap" | "mkfile" | "mklink"
 \*   ctx "top" (called by remove / create / swapFile) | "frame" (by the directory loops)
 BeginLeaf(t, op, path, exp, ctx, phase) ==
-  [t EXCEPT !.pc = "leaf", !.lf = [op |-> op, path |-> path, exp |-> exp, ctx |-> ctx, phase |-> phase]]
+  [t EXCEPT !.pc = "leaf", !.lf = [op |-> op, path |-> path, exp |-> exp, ctx |-> ctx, phase |-> phase, tx |-> FALSE]]
 
 \* the leaf operation returned (err = TRUE: with an error): continue in the caller
 RECURSIVE FrameLeafReturn(_, _)
@@ -269,35 +269,48 @@ RenameAtStaged ==
 OpenStaged ==       \* os.Open(stagedPath): the staged file may have vanished
   /\ s.pc = "leaf" /\ s.lf.phase = "openstaged"
   /\ s' \in {[s EXCEPT !.lf.phase = "createtemp"]} \cup (IF s.miss.any THEN {MissingReturn(s)} ELSE {})
+\* The cross-device branch: an intermediate temporary file in the target
+\* directory (created 0600, hence not executable), the staged bytes copied into
+\* it, ownership and the computed mode (incl. the executable bits of the planned
+\* entry) set on it, then renamed onto the target; on every failure after its
+\* creation the temporary is removed again (RemoveTemp), the target untouched.
+FailTemp(t) == [t EXCEPT !.lf.phase = "removetemp"]
+\* the temporary becomes the file at the target path
+Landed(t) == DF(t.lf.exp.d, t.lf.tx, VNew)
 CreateTemp ==       \* parent.CreateTemporaryFile
   /\ s.pc = "leaf" /\ s.lf.phase = "createtemp"
-  /\ s' \in Prim(s, "createtemp", [s EXCEPT !.lf.phase = IF s.owner THEN "chowntemp" ELSE "chmodtemp"], LeafReturn(s, TRUE))
-\* io.CopyBuffer writes through file handles (no injectable primitive); then
-ChownTemp ==        \* parent.SetPermissions(temporaryName, ...): fchownat first; on failure the temporary is removed
+  /\ s' \in Prim(s, "createtemp", [s EXCEPT !.lf.phase = "copytemp", !.lf.tx = FALSE], LeafReturn(s, TRUE))
+CopyTemp ==         \* io.CopyBuffer through the two file handles (no injectable primitive; the
+  /\ s.pc = "leaf" /\ s.lf.phase = "copytemp"      \* preemption check every 32 MiB is out of reach)
+  /\ s' = [s EXCEPT !.lf.phase = IF s.owner THEN "chowntemp" ELSE "chmodtemp"]
+ChownTemp ==        \* parent.SetPermissions(temporaryName, ownership, mode): fchownat first ...
   /\ s.pc = "leaf" /\ s.lf.phase = "chowntemp"
-  /\ s' \in Prim(s, "chowntemp", [s EXCEPT !.lf.phase = "chmodtemp"], LeafReturn(s, TRUE))
-ChmodTemp ==        \* ... then the mode bits; on failure the temporary is removed
+  /\ s' \in Prim(s, "chowntemp", [s EXCEPT !.lf.phase = "chmodtemp"], FailTemp(s))
+ChmodTemp ==        \* ... then the mode bits: the temporary gets the planned executability
   /\ s.pc = "leaf" /\ s.lf.phase = "chmodtemp"
-  /\ s' \in Prim(s, "setpermissions", [s EXCEPT !.lf.phase = "renametemp"], LeafReturn(s, TRUE))
-RenameTemp ==       \* filesystem.Rename(parent, temporaryName, parent, name, replace); removes the temporary on failure
+  /\ s' \in Prim(s, "setpermissions", [s EXCEPT !.lf.phase = "renametemp", !.lf.tx = s.lf.exp.x], FailTemp(s))
+RenameTemp ==       \* filesystem.Rename(parent, temporaryName, parent, name, replace)
   /\ s.pc = "leaf" /\ s.lf.phase = "renametemp"
   /\ LET there == OnDisk(s)
-         fits == IF Replace(s) THEN there.k # "dir" ELSE there = Nil
+         fits == IF Replace(s) THEN there.k # "dir" ELSE there = Nil      \* EISDIR / EEXIST otherwise
      IN s' \in Prim(s, "renametemp",
                     IF Fallback(s) THEN [s EXCEPT !.lf.phase = "probetemp"]
-                    ELSE IF fits THEN LeafReturn(DiskSet(s, s.lf.path, Wanted(s)), FALSE)    \* os.Remove(stagedPath): result ignored
-                    ELSE LeafReturn(s, TRUE),
-                    LeafReturn(s, TRUE))
+                    ELSE IF fits THEN LeafReturn(DiskSet(s, s.lf.path, Landed(s)), FALSE)    \* os.Remove(stagedPath): result ignored
+                    ELSE FailTemp(s),
+                    FailTemp(s))
 ProbeTemp ==
   /\ s.pc = "leaf" /\ s.lf.phase = "probetemp"
   /\ s' \in Prim(s, "probe",
-                 IF OnDisk(s) = Nil THEN [s EXCEPT !.lf.phase = "renameattemp"] ELSE LeafReturn(s, TRUE),
-                 LeafReturn(s, TRUE))
+                 IF OnDisk(s) = Nil THEN [s EXCEPT !.lf.phase = "renameattemp"] ELSE FailTemp(s),
+                 FailTemp(s))
 RenameAtTemp ==
   /\ s.pc = "leaf" /\ s.lf.phase = "renameattemp"
   /\ s' \in Prim(s, "renameat",
-                 IF OnDisk(s).k # "dir" THEN LeafReturn(DiskSet(s, s.lf.path, Wanted(s)), FALSE) ELSE LeafReturn(s, TRUE),
-                 LeafReturn(s, TRUE))
+                 IF OnDisk(s).k # "dir" THEN LeafReturn(DiskSet(s, s.lf.path, Landed(s)), FALSE) ELSE FailTemp(s),
+                 FailTemp(s))
+RemoveTemp ==       \* parent.RemoveFile(temporaryName): the clean-up names the temporary, never the target;
+  /\ s.pc = "leaf" /\ s.lf.phase = "removetemp"      \* if it fails too, the temporary stays (scans skip such names)
+  /\ s' \in Prim(s, "removetemp", LeafReturn(s, TRUE), LeafReturn([s EXCEPT !.templeft = @ + 1], TRUE))
 
 \* createSymbolicLink (portable mode accepted the target: C16's subject)
 Symlink ==          \* parent.CreateSymbolicLink
@@ -475,7 +488,7 @@ CreateEdit ==
        LET p == s.plan[j].path IN
        /\ p # <<>> /\ s.plan[j].old = Nil /\ At(s.disk, p) = Nil /\ At(s.disk, ParentOf(p)).k = "dir"
        /\ \A q \in s.edited : ~Comparable(p, q)
-       /\ \E op \in {"createfile", "createlink", "createdir"} :
+       /\ \E op \in {"createfile", "createlink", "createdir", "createfifo"} :
             s' = Logged([s EXCEPT !.disk = SetAt(s.disk, p, EditEffect(op, Nil))], op, p)
 \* the plan was computed from an older snapshot: disk and cache hold other content than the plan expects
 StaleEdit ==
@@ -510,7 +523,7 @@ Done == s.pc = "done" /\ UNCHANGED s
 Steps == \/ Begin \/ Loop \/ OpenRootParent \/ ListRootParent \/ OpenRoot \/ ListNames \/ OpenChild \/ ListLeaf
          \/ StatLeaf \/ ReadLink \/ Unlink \/ ChownFile \/ ChmodLeaf
          \/ ChmodStaged \/ RenameStaged \/ ProbeStaged \/ RenameAtStaged \/ OpenStaged \/ CreateTemp
-         \/ ChownTemp \/ ChmodTemp \/ RenameTemp \/ ProbeTemp \/ RenameAtTemp
+         \/ CopyTemp \/ ChownTemp \/ ChmodTemp \/ RenameTemp \/ ProbeTemp \/ RenameAtTemp \/ RemoveTemp
          \/ Symlink \/ ChownLink
          \/ RemoveDispatch \/ RmOpen \/ RmList \/ RmIter \/ RmFinish
          \/ CreateDispatch \/ MkDir \/ MkChown \/ MkChmod \/ MkOpen \/ MkIter
@@ -526,6 +539,9 @@ InvC09 == (s.pc = "done" /\ s.edited = {}) => C09_ResultsExact(s.plan, s.results
 InvC08Survives == s.pc = "done" => C08_ModifiedSurvives(s.edited, s.before, s.disk)
 InvC08Reported == s.pc = "done" => C08_ModifiedReported(s.edited, s.plan, s.problems, s.before)
 InvC08Outside == s.pc = "done" => C08_OutsidePlanUntouched(s.plan, s.before, s.disk)
+\* C03 on the filesystem: what was on disk and is not described by the plan's Old trees
+\* (newcomers, FIFOs, unknown children) is still there
+InvC03 == s.pc = "done" => C03_UntrackedOnDiskUntouched(s.plan, s.before, s.disk)
 \* sanity of the machine itself
 InvShape == /\ s.i \in 1..(Len(s.plan) + 1) /\ Len(s.results) = s.i - 1
             /\ (s.pc = "done" => s.stk = <<>> /\ s.i = Len(s.plan) + 1)
